@@ -309,7 +309,12 @@ fn reference(a: &Args) {
 /// and have their inputs ready) and then at a spinning rendezvous (a condvar barrier wakes its waiters one after the
 /// other; the spin lets them leave within a few cycles of each other). Each thread calls the algorithm twice: the
 /// racing first call and one more (a half-initialised shared value that stays behind shows there as well).
+/// `--stagger S`: after the rendezvous thread t idles for t*S loop iterations (about a cycle each), so that the first calls
+/// start at evenly spread offsets: a check-then-initialise cache is read wrongly only by a thread that arrives while another
+/// one is in the middle of publishing, i.e. LATER than it by about one initialisation; threads that leave together all see
+/// "not initialised yet". S rotates over 0 / 16 / 64 / 256 / 1024 across the processes.
 fn worker_same(a: &Args) {
+    let stagger = a.u64("stagger", 0);
     use std::sync::atomic::{AtomicUsize, Ordering};
     let seed = a.u64("seed", 1);
     let threads = a.u64("threads", 2) as usize;
@@ -335,6 +340,9 @@ fn worker_same(a: &Args) {
                 } else {
                     std::hint::spin_loop();
                 }
+            }
+            for i in 0..(t as u64) * stagger {
+                std::hint::black_box(i);
             }
             let r1 = f(&input);
             let r2 = f(&input);
@@ -889,22 +897,29 @@ fn conc(a: &Args) {
     let mut same_thread_hist: BTreeMap<usize, usize> = BTreeMap::new();
     let mut same_first: HashSet<(usize, usize)> = HashSet::new();
     let mut same_compared = 0usize;
-    let same_plan: Vec<(usize, usize)> = (0..same_procs).map(|p| (ks[p % 3], (p / 3 + p / (3 * n) * 7 + seed as usize) % n)).collect();
+    let staggers = [0u64, 64, 1024, 16, 256];
+    let mut stagger_hist: BTreeMap<usize, usize> = BTreeMap::new();
+    let same_plan: Vec<(usize, usize, u64)> =
+        (0..same_procs).map(|p| (ks[p % 3], (p / 3 + p / (3 * n) * 7 + seed as usize) % n, staggers[(p / (3 * n)) % staggers.len()])).collect();
     for batch in same_plan.chunks(par.max(1)) {
         let hs: Vec<_> = batch
             .iter()
-            .map(|&(t, first)| {
-                let args = sv(&["worker", "--seed", &seed_s, "--threads", &t.to_string(), "--mode", "3", "--first", &first.to_string(), "--level", &level_s]);
+            .map(|&(t, first, stagger)| {
+                let args = sv(&[
+                    "worker", "--seed", &seed_s, "--threads", &t.to_string(), "--mode", "3", "--first", &first.to_string(), "--level", &level_s,
+                    "--stagger", &stagger.to_string(),
+                ]);
                 std::thread::spawn(move || spawn_self(&args))
             })
             .collect();
-        for (h, &(t, first)) in hs.into_iter().zip(batch.iter()) {
+        for (h, &(t, first, stagger)) in hs.into_iter().zip(batch.iter()) {
             *same_thread_hist.entry(t).or_insert(0) += 1;
+            *stagger_hist.entry(stagger as usize).or_insert(0) += 1;
             same_first.insert((t, first));
             configs.insert((t, 3, first));
             let desc = format!(
-                "\"threads\":{},\"mode\":\"3 (all threads start on the same algorithm and run nothing else)\",\"first_algorithm\":{},\"seed\":{},\"level\":{}",
-                t, jstr(al[first].name), seed, level
+                "\"threads\":{},\"mode\":\"3 (all threads start on the same algorithm and run nothing else)\",\"first_algorithm\":{},\"stagger_iterations_per_thread_index\":{},\"seed\":{},\"level\":{}",
+                t, jstr(al[first].name), stagger, seed, level
             );
             match h.join().unwrap() {
                 Err(e) => {
@@ -1047,7 +1062,7 @@ fn conc(a: &Args) {
     }
     let hist = |m: &BTreeMap<usize, usize>| format!("{{{}}}", m.iter().map(|(k, v)| format!("\"{}\":{}", k, v)).collect::<Vec<_>>().join(","));
     println!(
-        "{{\"evaluations\":{},\"distinct_nontrivial\":{},\"direct_failures\":[{}],\"failing_results\":{},\"samples\":[{}],\"cold_processes\":{},\"thread_counts\":{},\"start_modes\":{},\"first_algorithm\":{{{}}},\"thread_results_compared\":{},\"hammer_results_compared\":{},\"hammer_iterations_per_process\":{},\"same_start_processes\":{},\"same_start_thread_counts\":{},\"same_start_distinct_first_algorithms_per_thread_count\":{{{}}},\"same_start_results_compared\":{},\"algorithms\":[{}],\"hammer_algorithms\":[{}],\"stream_types_share_key_and_nonce\":true,\"reference\":\"each algorithm in a single-threaded process of its own ({} processes); two whole-sequence single-threaded processes (forwards, backwards) compared with it: {} results\",\"sequence_results_compared\":{},\"interleaving_rounds\":{},\"interleaving_instances\":{},\"interleaving_ops\":{},\"interleaving_op_mix\":{{{}}},\"interleaving_rounds_with_two_instances_of_one_type\":{},\"interleaving_rounds_from_one_family\":{},\"interleaving_rounds_same_key_nonce_under_two_stream_types\":{},\"interleaving_rounds_other_key_same_nonce\":{},\"interleaving_rounds_two_output_sizes_of_one_skein_state_size\":{},\"interleaving_reference\":\"same process one at a time + separate process, rounds and instances in reverse order, unrelated stream traffic in between\",\"backend_level\":{},\"profile\":{}}}",
+        "{{\"evaluations\":{},\"distinct_nontrivial\":{},\"direct_failures\":[{}],\"failing_results\":{},\"samples\":[{}],\"cold_processes\":{},\"thread_counts\":{},\"start_modes\":{},\"first_algorithm\":{{{}}},\"thread_results_compared\":{},\"hammer_results_compared\":{},\"hammer_iterations_per_process\":{},\"same_start_processes\":{},\"same_start_thread_counts\":{},\"same_start_distinct_first_algorithms_per_thread_count\":{{{}}},\"same_start_results_compared\":{},\"same_start_stagger_iterations\":{},\"algorithms\":[{}],\"hammer_algorithms\":[{}],\"stream_types_share_key_and_nonce\":true,\"reference\":\"each algorithm in a single-threaded process of its own ({} processes); two whole-sequence single-threaded processes (forwards, backwards) compared with it: {} results\",\"sequence_results_compared\":{},\"interleaving_rounds\":{},\"interleaving_instances\":{},\"interleaving_ops\":{},\"interleaving_op_mix\":{{{}}},\"interleaving_rounds_with_two_instances_of_one_type\":{},\"interleaving_rounds_from_one_family\":{},\"interleaving_rounds_same_key_nonce_under_two_stream_types\":{},\"interleaving_rounds_other_key_same_nonce\":{},\"interleaving_rounds_two_output_sizes_of_one_skein_state_size\":{},\"interleaving_reference\":\"same process one at a time + separate process, rounds and instances in reverse order, unrelated stream traffic in between\",\"backend_level\":{},\"profile\":{}}}",
         compared + hammer_compared + same_compared + seq_compared + rounds,
         configs.len() + distinct_rounds.len(),
         direct.join(","),
@@ -1064,6 +1079,7 @@ fn conc(a: &Args) {
         hist(&same_thread_hist),
         same_algs_per_k.join(","),
         same_compared,
+        hist(&stagger_hist),
         al.iter().map(|x| jstr(x.name)).collect::<Vec<_>>().join(","),
         ha.iter().map(|x| jstr(x.name)).collect::<Vec<_>>().join(","),
         n + ha.len(),
